@@ -74,10 +74,13 @@ func ParsePortionSpecific(input string) (*Portion, error) {
 		if len(fractionMatch) != 0 {
 			numerator := fractionMatch[1]
 			denominator := fractionMatch[2]
-			res, ok = new(big.Rat).SetString(numerator + "/" + denominator)
-			if !ok {
+			// both parts are decimal: big.Rat.SetString would read a leading 0 as an octal prefix ("010/100" as 8/100)
+			num, okNum := new(big.Int).SetString(numerator, 10)
+			den, okDen := new(big.Int).SetString(denominator, 10)
+			if !okNum || !okDen || den.Sign() == 0 {
 				return nil, errors.New("invalid fractional format")
 			}
+			res = new(big.Rat).SetFrac(num, den)
 		}
 	}
 	if res == nil {
